@@ -166,6 +166,43 @@ CHECKS["C14"] = dict(
     technique="protocol/frame/barrier obligations on the generated parser's IR",
 )
 
+CHECKS["C05"] = dict(
+    engine="pegir+rx", category="proof",
+    text="Routing obligations on the real generated parser: every xonsh expression rule returns its builder's value unchanged; the xonsh alternatives of "
+         "primary/atom/target_with_star_atom come where no earlier alternative can succeed on a xonsh opener (first-set disjointness) or before the "
+         "alternative they extend (help before atom); '||'/'&&' reach the same action as 'or'/'and'; binding targets of assignment/for/with/"
+         "comprehension all go through star_target(s) where `$NAME`/`${e}` are Store alternatives. The SEARCH_PATH pattern is proved equal to the "
+         "documented backtick form (z3 regex). 14 constructs x 40 contexts against ast.parse of the written-out translation is the bounded stand-in.",
+    design_ref="DESIGN.md 5/C05",
+    note="NOT under contract: the builder bodies (load_attribute_chain, xonsh_call, expand_env_*, expand_search_path, handle_proc, proc_inject, "
+         "proc_pyexpr, expand_help): what they return is compared with the documented translation only by the stand-in. Assumed: C01 for the "
+         "written-out translation; first sets ignore lookaheads.",
+    technique="routing/ordering contracts on the generated parser's IR + regex-language obligation (z3 ReSort); builders bounded only",
+)
+CHECKS["C06"] = dict(
+    engine="pegir+pyvc", category="proof",
+    text="Bracket form -> runtime method table of sub_procs, `@(`/`@$(` builders and proc_cmds = proc_args(proc_cmd+) proved on the extracted IR of the "
+         "real parser; adjacency is proved positional (Parser.is_adjacent <=> prev.end == curr.start, E1) and WS tokens are dropped by "
+         "Tokenizer.is_blank outside subprocess macros (E1); the shell-word alphabet consists of NAME/NUMBER/operator characters. Command lines of "
+         "<= 3 words from a 36-word pool x spacing x gluing vs an independent whitespace splitter is the bounded stand-in.",
+    design_ref="DESIGN.md 5/C06",
+    note="NOT under contract: the grouping loop Parser._proc_args/_append_node_or_token (mixed token/node lists) - bounded stand-in only. "
+         "Assumed: tokens tile the source (C08). Python keywords as command words are outside the domain.",
+    technique="table/routing contracts on the parser IR + E1 postconditions on is_adjacent/is_blank (z3); grouping loop bounded only",
+)
+CHECKS["C07"] = dict(
+    engine="pegir+pyvc", category="proof",
+    text="Flag protocol of the three macro forms (each alternative that sets a raw-capture flag ends in the builder that clears it; flags written "
+         "nowhere else), Tokenizer.peek hands control to the capture routine exactly when its flag is set and appends its result unfiltered unless blank "
+         "(E1), is_blank keeps WS tokens while _proc_macro is set (E1), the grammar passes MACRO_PARAM token strings unchanged to macro_call / "
+         "handle_with_macro_stmt, which put `.string` into the Constant as is. ~900 macro uses vs an independent bracket/string-aware splitter is the "
+         "bounded stand-in.",
+    design_ref="DESIGN.md 5/C07",
+    note="ASSUMED contracts (bodies not verified): Tokenizer.consume_macro_params / consume_with_macro_params (raw-capture loops over the token "
+         "generator) - their fidelity is checked by the stand-in only; textwrap.dedent external.",
+    technique="protocol/routing contracts on the parser IR + E1 contracts on peek/is_blank (z3); raw-capture loops bounded only",
+)
+
 NOT_APPLICABLE_REASON = "not built yet (DESIGN.md section 8 build order); no claim is made"
 
 manifest = {
